@@ -8,7 +8,7 @@ HERE = os.path.dirname(os.path.dirname(os.path.abspath(__file__)))
 PROP = {
  "C01": ["AndNotMatcher must skip", "len(results) of a limited search undercounted", "len(results) of a limited search ignored",
          "InverseMatcher could stop on a deleted"],
- "C05": ["SpanNot raised when the excluded", "AndNotMatcher.skip_to_quality", "RequireMatcher.skip_to_quality", "additive matchers skipped", "stale cached document id",
+ "C05": ["dropped documents scoring zero or less while its top-N", "SpanNot raised when the excluded", "AndNotMatcher.skip_to_quality", "RequireMatcher.skip_to_quality", "additive matchers skipped", "stale cached document id",
          "InverseMatcher reported", "collapsing a limited search", "DisjunctionMaxMatcher.replace dropped", "limited searches crashed",
          "limited searches with a final", "AndMaybeMatcher.replace() without", "asked an exhausted sub-matcher", "could return a deleted document", "did not re-check spans after a quality skip"],
  "C09": ["DisjunctionMaxMatcher scored", "DFree weighting", "ConstantScoreQuery was not constant", "ListMatcher ignored an all_weights", "dropped documents scoring zero or less", "depended on how many terms they expanded"],
